@@ -233,6 +233,8 @@ pub struct Project {
     pub items: Vec<Item>,
     pub files: Vec<SrcFile>,
     pub counter: u32,
+    /// placements rejected because the file graph was cyclic (excluded by construction)
+    pub counter_cyclic_placements: u32,
     /// generation finished: every live item sits in a file
     pub placed: bool,
 }
@@ -409,6 +411,37 @@ impl Project {
             g.insert(f.rel.clone(), s);
         }
         g
+    }
+
+    /// True if the file reference graph has a cycle (two files that need each
+    /// other through different items).  `veryl` panics on such projects
+    /// (type_dag.rs `insert_file_edge`: `WouldCycle`), with or without the
+    /// fragment cache, so generators avoid them.
+    pub fn file_graph_cyclic(&self) -> bool {
+        let g = self.file_deps();
+        // Kahn
+        let mut indeg: BTreeMap<&String, usize> = g.keys().map(|k| (k, 0)).collect();
+        for v in g.values() {
+            for t in v {
+                if let Some(x) = indeg.get_mut(t) {
+                    *x += 1;
+                }
+            }
+        }
+        let mut queue: Vec<&String> = indeg.iter().filter(|(_, n)| **n == 0).map(|(k, _)| *k).collect();
+        let mut seen = 0;
+        while let Some(k) = queue.pop() {
+            seen += 1;
+            for t in &g[k] {
+                if let Some(x) = indeg.get_mut(t) {
+                    *x -= 1;
+                    if *x == 0 {
+                        queue.push(t);
+                    }
+                }
+            }
+        }
+        seen != g.len()
     }
 
     /// Items that (directly) reference `id`.
@@ -942,7 +975,7 @@ pub fn loosen(text: &str) -> String {
         } else if n % 3 == 1 && line.starts_with("    ") {
             out.push_str(&line[2..]);
         } else {
-            out.push_str(&line.replace(" = ", "="));
+            out.push_str(&line.replace(" = ", "  =   "));
         }
         out.push('\n');
     }
